@@ -48,6 +48,10 @@ var queries = []string{
 	`{ users { device { id } device { owner { name } owner { email } } } }`,
 	`{ users { id } users { boss { name } boss { age } boss { boss { id } } } }`,
 	`{ devices { owner { id } } devices { owner { email } tags owner { age } } }`,
+	// a mutation whose result needs fields of other services (the hops after it are queries)
+	`mutation { pickUser(id: 1) { id name email age device { temp } } }`,
+	`mutation { pickUser(id: 2) { boss { email secret } devices { tags owner { age } } } }`,
+	`mutation { pickUser(id: 99) { email } }`,
 }
 
 // one named fragment spread at two sites, with several duplicated aliases at one of them
@@ -204,7 +208,11 @@ func runSeq(rp *explore.Report, tier string) {
 						gerr = err
 						return
 					}
+					picked := d.Picked
 					got, _, gerr = g.Exec.Execute(ctx, parsed, nil)
+					if n := d.Picked - picked; gerr == nil && strings.HasPrefix(q, "mutation") && n != 1 {
+						gerr = fmt.Errorf("the mutation ran %d times", n)
+					}
 				}()
 				if rp.Cases%4999 == 1 {
 					rp.AddSample(map[string]interface{}{"assignment": a.String(), "query": q})
